@@ -64,7 +64,7 @@ def _worker_body(env, plan, seed_, out_records, wid, barrier):
         probe.clear_controller()
 
 
-def run_threads(env, plans, seed_, timeout=60):
+def run_threads(env, plans, seed_, timeout=25):
     """Real threads, OS-scheduled. Returns (records, hung:bool)."""
     records = []
     bar = threading.Barrier(len(plans))
@@ -78,72 +78,108 @@ def run_threads(env, plans, seed_, timeout=60):
     for t in ths:
         t.join(max(0.0, deadline - time.monotonic()))
     hung = any(t.is_alive() for t in ths)
+    if hung:
+        import traceback
+        frames = sys._current_frames()
+        parked = []
+        for t in ths:
+            if t.is_alive() and t.ident in frames:
+                stack = traceback.extract_stack(frames[t.ident])
+                names = [f"{os.path.basename(fr.filename)}:{fr.name}" for fr in stack]
+                parked.append(any(n.endswith(":wait") for n in names) and any("filehashstore.py" in n for n in names))
+        hung = "parked-in-wait" if parked and all(parked) else "unknown"
     for lst in lists:
         records += lst
     return records, hung
 
 
-def run_processes(env, plans, seed_, timeout=90):
-    """Real forked processes (the store object, with its multiprocessing primitives, is inherited
-    through fork). Returns (records, exit_codes, hung)."""
+def _process_main(env, plan, seed_, wid, barrier, conn, dump_path):
+    """Body of one forked worker (started through multiprocessing's fork context, i.e. the way an application
+    would fork workers: multiprocessing's after-fork hooks run, so every manager proxy gets its own connection)."""
+    recs = []
+    code = 0
+    try:
+        import faulthandler
+        dump = open(dump_path, "w")
+        faulthandler.register(signal.SIGUSR1, file=dump, all_threads=True)
+    except Exception:  # noqa
+        pass
+    try:
+        _worker_body(env, plan, seed_, recs, wid, lambda: barrier.wait(30))
+    except BaseException as err:  # noqa
+        recs.append({"w": wid, "i": -1, "harness_error": repr(err)})
+        code = 3
+    try:
+        conn.send(recs)
+        conn.close()
+    except BaseException:  # noqa
+        code = 4
+    os._exit(code)
+
+
+def run_processes(env, plans, seed_, timeout=25):
+    """Real worker processes forked from the process that constructed the store (multiprocessing 'fork'
+    context; the store object with its multiprocessing primitives is inherited).
+    Returns (records, exit_codes, hung) with hung in (False, 'parked-in-wait', 'unknown')."""
     import multiprocessing
     ctx = multiprocessing.get_context("fork")
     bar = ctx.Barrier(len(plans))
-    pipes = []
-    pids = []
+    procs = []
     sys.stdout.flush()
     sys.stderr.flush()
     for wid, plan in enumerate(plans):
-        r, w = os.pipe()
-        pid = os.fork()
-        if pid == 0:
-            os.close(r)
-            code = 0
-            recs = []
-            try:
-                _worker_body(env, plan, seed_ * 31 + wid, recs, wid, lambda: bar.wait(30))
-            except BaseException as err:  # noqa
-                recs.append({"w": wid, "i": -1, "harness_error": repr(err)})
-                code = 3
-            try:
-                with os.fdopen(w, "w") as f:
-                    json.dump(recs, f)
-            except BaseException:  # noqa
-                code = 4
-            os._exit(code)
-        os.close(w)
-        pipes.append(r)
-        pids.append(pid)
+        parent_conn, child_conn = ctx.Pipe(duplex=False)
+        dump_path = os.path.join(env.scratch, f"hang-{os.getpid()}-{wid}-{time.monotonic_ns()}.txt")
+        p = ctx.Process(target=_process_main, args=(env, plan, seed_ * 31 + wid, wid, bar, child_conn, dump_path), daemon=True)
+        p.start()
+        child_conn.close()
+        procs.append((p, parent_conn, dump_path))
     records, codes = [], []
     hung = False
+    parked_flags = []
     deadline = time.monotonic() + timeout
-    for pid, r in zip(pids, pipes):
-        data = b""
-        os.set_blocking(r, False)
+    for p, conn, dump_path in procs:
+        got = None
         while True:
+            remaining = deadline - time.monotonic()
+            if remaining <= 0:
+                break
             try:
-                chunk = os.read(r, 65536)
-                if not chunk:
+                if conn.poll(min(remaining, 0.05)):
+                    got = conn.recv()
                     break
-                data += chunk
-            except BlockingIOError:
-                if time.monotonic() > deadline:
-                    hung = True
-                    break
-                time.sleep(0.002)
-        os.close(r)
-        if hung:
+            except (EOFError, OSError):
+                break
+            if not p.is_alive() and not conn.poll(0):
+                break
+        if got is not None:
+            records += got
+        if p.is_alive() and got is None:
+            hung = True
             try:
-                os.kill(pid, signal.SIGKILL)
+                os.kill(p.pid, signal.SIGUSR1)
+                time.sleep(0.3)
+                try:
+                    with open(dump_path) as fh:
+                        tb = fh.read()
+                except OSError:
+                    tb = ""
+                parked_flags.append(("filehashstore.py" in tb) and (" in wait" in tb))
+                p.kill()
             except ProcessLookupError:
                 pass
-        _p, status = os.waitpid(pid, 0)
-        codes.append(os.waitstatus_to_exitcode(status))
-        if data:
-            try:
-                records += json.loads(data.decode())
-            except ValueError:
-                pass
+        p.join(5)
+        codes.append(p.exitcode if p.exitcode is not None else -9)
+        try:
+            conn.close()
+        except OSError:
+            pass
+        try:
+            os.remove(dump_path)
+        except OSError:
+            pass
+    if hung:
+        hung = "parked-in-wait" if parked_flags and all(parked_flags) else "unknown"
     return records, codes, hung
 
 
